@@ -1219,10 +1219,10 @@ class _SubMixin:
             if p[0] in ("ell", "mask", "key") or not items:
                 return None
             it = items.pop(0)
-            if p[0] in ("full", "vslice"):
+            if p[0] == "full":
                 out.append(it)
-            elif p[0] == "range":
-                out.append(Q(D0))
+            elif p[0] in ("range", "vslice"):
+                out.append(Q(D0))       # a sub-range has its own (untyped) length
         return Tup(out + items)
 
     @staticmethod
